@@ -116,6 +116,7 @@ func C18(p *core.Prog, rep *core.Report) {
 	cd4Framing(p, rep)
 	v.vf3Merge()
 	rp1SkipBelow(p, rep)
+	m.mg1Guard()
 	rep.NotCovered = append(rep.NotCovered, "equality of the index built from the hint with the index built by scanning, for all merges")
 }
 
